@@ -158,7 +158,7 @@ Lemma nd_all_sites_classified : forall x, In x gen_nd_sites ->
 Proof.
   intros x I. pose proof nd_all_sites_ok as A. rewrite forallb_forall in A. specialize (A x I).
   unfold nd_site_ok in A. apply orb_prop in A as [A|A]; [left; exact A|right].
-  unfold nd_allowed in A. apply existsb_exists in A as [a [Ia E]]. exists a. split; [exact Ia|].
+  apply andb_prop in A as [A _]. unfold nd_allowed in A. apply existsb_exists in A as [a [Ia E]]. exists a. split; [exact Ia|].
   apply String.eqb_eq. exact E.
 Qed.
 
@@ -240,3 +240,43 @@ Lemma nd_demo :
   nd_run nd_demo_steps [[1; 2; 3]; [2; 3; 1]; [3; 2; 1]] (0, false, []) = (6, true, [1; 2; 3]) /\
   nd_run nd_demo_steps [[3; 2; 1]; [1; 3; 2]; [2; 1; 3]] (0, false, []) = (6, true, [1; 2; 3]).
 Proof. vm_compute. split; reflexivity. Qed.
+
+(* ---------- fan-in ---------- *)
+
+Lemma nd_first_error_const : forall (E : Type) (err : E -> option Z) c es,
+  (forall e x, err e = Some x -> x = c) -> nd_first_error E err es = None \/ nd_first_error E err es = Some c.
+Proof.
+  intros E err c es A. induction es as [|e tl IH]; [left; reflexivity|]. cbn [nd_first_error].
+  destruct (err e) as [x|] eqn:X; [right; f_equal; exact (A e x X)|exact IH].
+Qed.
+
+(* when every error is the same whatever item produced it, the order in which the goroutines finish is not observable *)
+Lemma nd_fanin_const_independent : forall (E : Type) (err : E -> option Z) c arrival arrival',
+  (forall e x, err e = Some x -> x = c) -> Permutation arrival arrival' ->
+  nd_fanin_first E err arrival = nd_fanin_first E err arrival'.
+Proof.
+  intros E err c a a' A P. unfold nd_fanin_first.
+  pose proof (nd_first_error_some_perm E err a a' P) as [H1 H2].
+  destruct (nd_first_error_const E err c a A) as [X|X], (nd_first_error_const E err c a' A) as [Y|Y]; rewrite X, Y; try reflexivity.
+  - rewrite (H1 X) in Y. discriminate.
+  - rewrite (H2 Y) in X. discriminate.
+Qed.
+
+(* an error text that mentions the item: two failing items, two finishing orders, two outputs *)
+Lemma nd_fanin_item_example :
+  nd_fanin_first Z (fun i => Some i) [1; 2] = Some 1 /\ nd_fanin_first Z (fun i => Some i) [2; 1] = Some 2 /\ Permutation [1; 2] [2; 1].
+Proof. repeat split. apply perm_swap. Qed.
+
+(* no fan-in call of the scope surfaces an error that mentions the item *)
+Lemma nd_no_fan_in_item_error :
+  forallb (fun x => match nd_site_class x with ClFanInItem => false | _ => true end) gen_nd_sites = true.
+Proof. vm_compute. reflexivity. Qed.
+
+(* every fan-in call whose error text depends on loaded data is listed with the side condition *)
+Lemma nd_fan_in_value_conditions : forall x, In x gen_nd_sites -> nd_site_class x = ClFanInValue ->
+  nd_cond_of gen_nd_allow_cond (nd_site_key x) = nd_fan_in_no_item_id.
+Proof.
+  intros x I C. pose proof nd_all_sites_ok as A. rewrite forallb_forall in A. specialize (A x I).
+  unfold nd_site_ok in A. rewrite C in A. cbn [nd_class_independent orb] in A. apply andb_prop in A as [_ A].
+  unfold nd_entry_fits in A. rewrite C in A. apply String.eqb_eq. exact A.
+Qed.
